@@ -9,6 +9,7 @@ LEVEL_TEXT = {
     "C06": "Fault enumeration: for every sampled conversation each errno of the property's list is injected at each lower read/write index, the peer host dies at each wire byte offset (FIN/RST/silence) and either side closes abruptly before each operation, each in a run of its own, followed by >= 3 rounds of send/receive/finish; a terminal-state reference automaton (delivered prefix, then 0/EPIPE or a sticky errno) judges every API result. Complete for single faults within each sampled scenario (up to the stated cap), seeded over scenarios and schedules.",
     "C04": "Exact lost-wake-up detector: the simulation ends either with every task finished or at global quiescence; since the generated conversations are deadlock-free by construction, an unfinished task at quiescence means a descriptor failed to become readable when it had to. Seeded search over schedules, buffer sizes, segmentation and connection phases.",
     "C05": "Monitor on the simulated kernel over every run: any call that may sleep made inside an API call on a non-blocking socket is a violation regardless of whether it would have been satisfied at once.",
+    "C07": "Seeded search over hostile byte strings and their fragmentation against a real single-threaded XCM application; a reference frame decoder decides what must be delivered and how the connection must end, sanitizers and the abort trap decide memory safety, the allocation wraps decide the buffering bound, and healthy neighbour connections of the same thread must be unaffected.",
     "C16": "Readiness read directly from the simulated epoll object; spin compression turns a permanently readable descriptor without progress into an exact verdict; xcm_fd stability sampled around every API call.",
     "C17": "Ledger comparison after every API call over generated traffic histories incl. truncation, refusal, partial flush.",
 }
@@ -17,7 +18,6 @@ TECHNIQUE = {}
 NOT_APPLICABLE = {
     "C12": "pure codec (xcm_addr_make_*/parse_*): a function of its arguments with no schedule, clock, fault or second party - nothing for a simulator to control (DESIGN.md 3, C12)",
     "C19": "sequential ADT (xcm_attr_map) and pure parser (attr_path): no schedule, clock, fault or interleaving; reference-model equivalence over operation histories is input generation, not simulation (DESIGN.md 3, C19)",
-    "C07": "check not built yet at this commit (planned: hostile raw peer, DESIGN.md 3 C07)",
     "C08": "check not built yet at this commit (planned: lifecycle programs with resource-call fault enumeration, DESIGN.md 3 C08)",
     "C09": "check not built yet at this commit (planned: generated PKI x policy matrix, DESIGN.md 3 C09)",
     "C10": "check not built yet at this commit (planned: attribute probes at scheduler-chosen points, DESIGN.md 3 C10)",
